@@ -215,3 +215,23 @@ def _ensemble_wrapper(h, fname, cls):
 
 for _f, _c in (('lattice', 'LatticeSolver'), ('buckshot', 'BuckshotSolver'), ('sparsity', 'SparsitySolver')):
     contract('C09/' + _f, ['C09', 'C01', 'C05', 'C02'], EN + '::' + _f, native=False)(lambda h, f=_f, c=_c: _ensemble_wrapper(h, f, c))
+
+
+@contract('C02/tools.unpair', ['C02', 'C09'], 'mystic/tools.py::unpair', samples=60)
+def unpair(h):
+    """unpair([(a0, b0), (a1, b1), ...]) == [a0, a1, ...], [b0, b1, ...]: parameter k keeps ITS OWN two limits, in the order
+    given (the one-line interfaces turn `bounds=` into strict ranges, and diffev's x0-as-pairs into the limits of the
+    random start, through this helper); a None entry stays None; all values, 1..3 parameters"""
+    n = h.choice('parameters', [1, 2, 3])
+    form = h.choice('pairs_given_as', ['tuples', 'lists', 'with-None'])
+    lo = [h.real('lo%d' % k) for k in range(n)]
+    hi = [h.real('hi%d' % k) for k in range(n)]
+    if form == 'with-None':
+        hi = [None] + hi[1:]
+    mk = h.tup if form != 'lists' else (lambda a_, b_: h.clist([a_, b_]))
+    r = h.call(h.get('mystic/tools.py::unpair'), h.clist([mk(a_, b_) for a_, b_ in zip(lo, hi)]))
+    ok = 'len(r) == 2 and len(r[0]) == n and len(r[1]) == n'
+    for k in range(n):
+        ok += ' and r[0][%d] == lo%d and r[1][%d] %s' % (k, k, k, ('is None' if hi[k] is None else '== hi%d' % k))
+    h.check('every-parameter-keeps-its-own-limits-in-the-order-given', ok, r=r, n=n,
+            **{'lo%d' % k: lo[k] for k in range(n)}, **{'hi%d' % k: hi[k] for k in range(n) if hi[k] is not None})
